@@ -184,7 +184,21 @@ fn build_hist(gen: &Gen, seed: u64, seed_pos: u8, batch: u8, history: u8) -> Vec
             if seed_pos == 2 {
                 b.seed(seed);
             }
-            b.min_weight(*min_weight).max_weight(*max_weight).phase_denom(*phase_denom);
+            // the bounds are two independent settings: the order in which they are given (and
+            // whatever an earlier configuration left in the builder) must not matter; equal bounds
+            // also through `weight`
+            match (seed >> 5) & 3 {
+                1 | 2 => {
+                    b.max_weight(*max_weight).min_weight(*min_weight);
+                }
+                3 if min_weight == max_weight => {
+                    b.weight(*min_weight);
+                }
+                _ => {
+                    b.min_weight(*min_weight).max_weight(*max_weight);
+                }
+            }
+            b.phase_denom(*phase_denom);
             if seed_pos == 1 {
                 b.seed(seed);
             }
